@@ -53,6 +53,8 @@ class Ctx:
         self.evaluations = 0
         self.nontrivial = set()
         self.samples = []
+        self.incoq_pool = []
+        self.incoq = None
         self.dist = {}
         self.failures = []       # K failures: concrete failing inputs
         self.mismatches = []     # X mismatches
@@ -189,28 +191,46 @@ def proof_gate(ctx):
         res["problems"].append("coqc Props/%s.v failed:\n%s" % (ctx.prop, r.stdout[-2500:]))
         return res
     out = r.stdout
-    pa_names = set(re.findall(r"^\s*Print\s+Assumptions\s+(\w+)", src, re.M))
+    pa_order = re.findall(r"^\s*Print\s+Assumptions\s+(\w+)", src, re.M)
+    pa_names = set(pa_order)
     n_pa = len([t for t in thms if t in pa_names])
     closed = out.count("Closed under the global context")
-    axioms = set()
+    # one answer per Print Assumptions command, in file order: "Closed under the global context" or an "Axioms:" block
+    answers = []
     in_ax = False
     for line in out.split("\n"):
+        if line.strip() == "Closed under the global context":
+            answers.append(set())
+            in_ax = False
+            continue
         if line.strip() == "Axioms:":
+            answers.append(set())
             in_ax = True
             continue
         if in_ax:
             m = re.match(r"^([A-Za-z_][\w.']*)\s*(:.*)?$", line)
             if m:
-                axioms.add(m.group(1))
+                answers[-1].add(m.group(1))
             elif line.startswith(" ") or line.startswith("\t"):
                 continue       # continuation of a type
             else:
                 in_ax = False
+    axioms = set().union(*answers) if answers else set()
     res["axioms"] = sorted(axioms)
     allow = set(props.AXIOMS.get(ctx.prop, []))
-    for a in axioms:
-        if a not in allow:
-            res["problems"].append("axiom %s not in the allowlist of %s" % (a, ctx.prop))
+    if len(answers) != len(pa_order):
+        res["problems"].append("%d Print Assumptions commands but %d answers" % (len(pa_order), len(answers)))
+        for a in axioms:
+            if a not in allow:
+                res["problems"].append("axiom %s not in the allowlist of %s" % (a, ctx.prop))
+    else:
+        # per theorem: its own allowlist (props.AXIOMS_THM) or the property's
+        res["theorem_axioms"] = {t: sorted(a) for t, a in zip(pa_order, answers) if a}
+        for t, a in zip(pa_order, answers):
+            al = set(getattr(props, "AXIOMS_THM", {}).get(t, allow))
+            for x in a:
+                if x not in al:
+                    res["problems"].append("theorem %s rests on axiom %s, which is not in its allowlist" % (t, x))
     if n_pa < len(thms):
         res["problems"].append("only %d Print Assumptions for %d theorems" % (n_pa, len(thms)))
     bad = grep_gate()
@@ -236,9 +256,12 @@ def proof_gate(ctx):
             else:
                 ax = [a.strip() for a in m.group(1).split("\n") if a.strip() and a.strip() != "<none>"]
                 res["coqchk_axioms"] = ax
+                # coqchk -o lists the axioms of EVERY library in the dependency closure of the property file (not
+                # only those the pinned theorems rest on, which Print Assumptions above decides per theorem): the
+                # bar here is "standard-library axioms only", by exact name
                 for a in ax:
-                    if not any(a.endswith(x.split(".")[-1]) for x in allow):
-                        res["problems"].append("coqchk reports axiom %s outside the allowlist" % a)
+                    if not any(a == x or a == "Coq." + x or a.endswith("." + x) for x in AXIOM_ALLOW):
+                        res["problems"].append("coqchk reports axiom %s outside the standard-library allowlist" % a)
                 for g in (2, 3, 4):
                     if m.group(g).strip() != "<none>":
                         res["problems"].append("coqchk: unsafe feature in use: " + m.group(g).strip()[:200])
@@ -359,6 +382,8 @@ def evaluate(ctx, name, lines, relevant, dbg=False, x=True, nontrivial=None, cap
                                      clauses=sorted(bad), dbg=dbg))
         if x and model[i] != "ORACLE" and impl[i] != model[i]:
             ctx.mismatches.append(dict(batch=name, case=line, impl=impl[i], model=model[i], dbg=dbg))
+        if x and incoq_eligible(comp, kv, line):
+            ctx.incoq_pool.append((line, model[i], dbg))
         nt = nontrivial(comp, kv, impl[i]) if nontrivial else default_nontrivial(comp, kv, impl[i])
         if nt:
             ctx.nontrivial.add(hash(line))
@@ -569,6 +594,75 @@ def search_failing_input(ctx, mism, relevant, budget_s):
     return None, tried
 
 
+# ---------------------------------------------------------------- model inside Coq
+def incoq_eligible(comp, kv, line):
+    """raw / capture cases the model can be run on inside Coq: slice lookups, no hook fault, no adapter stack,
+    small inputs and a small expiry index"""
+    if comp == "tok":
+        return kv.get("kind") in ("lines", "lnl", "words", "chars") and len(kv.get("text", "")) <= 400
+    if comp not in ("raw", "capture") or len(line) > 400:
+        return False
+    if kv.get("idx", "S") != "S" or kv.get("fail", "-") != "-" or kv.get("stack", "none") != "none":
+        return False
+    dl = kv.get("dl", "-")
+    return dl == "-" or (dl.isdigit() and int(dl) < 1000)
+
+
+def incoq_crosscheck(ctx):
+    """Evaluate a sample of this run's cases with vm_compute inside Coq (Check/Render.v) and compare with what the
+    extracted model + OCaml driver answered: cross-checks extraction and driver glue."""
+    pool = ctx.incoq_pool
+    if not pool:
+        return
+    k = 80 if ctx.tier == "quick" else 800
+    rng = random.Random(ctx.seed * 7919 + 13)
+    sample = pool if len(pool) <= k else rng.sample(pool, k)
+    lst = lambda v: "[" + ";".join(v.split(",")) + "]" if v != "-" else "[]"
+    body = ["From Coq Require Import String List. Import ListNotations.",
+            "From Coq Require Import NArith.",
+            "From Similar Require Import Model.Capture Model.Tokenize Check.Render.", "Set Printing Width 1000000."]
+    for line, _, dbg in sample:
+        comp, kv = parse_line(line)
+        if comp == "tok":
+            t = kv["text"]
+            bs = "[]" if t == "-" else "[" + ";".join(str(int(t[i:i + 2], 16)) for i in range(0, len(t), 2)) + "]"
+            body.append("Eval vm_compute in render_tok %s %s %s%%N." % (
+                "true" if kv["mode"] == "bytes" else "false",
+                {"lines": "TkLines", "lnl": "TkLinesNewlines", "words": "TkWords", "chars": "TkChars"}[kv["kind"]], bs))
+            continue
+        alg = {"M": "Myers", "P": "Patience", "L": "Lcs"}[kv["alg"]]
+        dl = "None" if kv.get("dl", "-") == "-" else "(Some %s)" % kv["dl"]
+        os_, oe = kv["or"].split(":")
+        ns, ne = kv["nr"].split(":")
+        d = "true" if dbg else "false"
+        if comp == "raw":
+            body.append("Eval vm_compute in render_raw %s %s %s %s %s %s %s %s %s." % (
+                alg, dl, d, lst(kv["old"]), lst(kv["new"]), os_, oe, ns, ne))
+        else:
+            rp = "true" if kv.get("repair", "0") == "1" else "false"
+            body.append("Eval vm_compute in render_capture %s %s %s %s %s %s %s %s %s %s." % (
+                alg, dl, d, rp, lst(kv["old"]), lst(kv["new"]), os_, oe, ns, ne))
+    wd = os.path.join(VERIF, "work", "incoq-%s-%d" % (ctx.prop, os.getpid()))
+    os.makedirs(wd, exist_ok=True)
+    vf = os.path.join(wd, "cases.v")
+    open(vf, "w").write("\n".join(body) + "\n")
+    r = subprocess.run(["timeout", "600", "coqc", "-q", "-noglob", "-Q", os.path.join(VERIF, "coq"), "Similar", vf],
+                       stdout=subprocess.PIPE, stderr=subprocess.STDOUT, text=True)
+    outs = re.findall(r'=\s*"([^"]*)"%string', r.stdout)
+    shutil.rmtree(wd, ignore_errors=True)
+    res = dict(sampled=len(sample), pool=len(pool), agree=0, disagree=[])
+    if r.returncode != 0 or len(outs) != len(sample):
+        res["error"] = "coqc failed or printed %d results for %d cases: %s" % (len(outs), len(sample), r.stdout[-400:])
+    else:
+        for (line, mo, dbg), co in zip(sample, outs):
+            want = re.sub(r" ratio=-?\d+$", "", mo)
+            if co == want:
+                res["agree"] += 1
+            else:
+                res["disagree"].append(dict(case=line, in_coq=co, extracted=mo))
+    ctx.incoq = res
+
+
 # ---------------------------------------------------------------- verdict
 def write_replay(ctx, n, payload):
     os.makedirs(os.path.join(VERIF, "replays"), exist_ok=True)
@@ -620,6 +714,14 @@ def finish(ctx, gate, spec):
                                           note="model and implementation disagree, so the theorems no longer speak "
                                                "about this code; no input violating the property was found"))
             violations.append("VIOLATION property=%s replay=%s no-failing-input-found" % (ctx.prop, p))
+    incoq_crosscheck(ctx)
+    if ctx.incoq and (ctx.incoq.get("error") or ctx.incoq["disagree"]):
+        p = write_replay(ctx, 3, dict(kind="extraction-crosscheck", property=ctx.prop, result=ctx.incoq,
+                                      correspondence="model evaluated inside Coq (vm_compute, Check/Render.v) vs "
+                                                     "extracted model + OCaml driver",
+                                      note="the executable model used for the correspondence no longer agrees with "
+                                           "the Coq definitions the theorems are about; no failing input"))
+        violations.append("VIOLATION property=%s replay=%s no-failing-input-found" % (ctx.prop, p))
     for k, (cnt, wit, fd) in sorted(ctx.known.items()):
         print("KNOWN-FINDING: property=%s %s (%s): %d case(s) this run, e.g. %s -> %s" % (
             ctx.prop, k, fd.get("what", fd.get("site", "")), cnt, wit["case"][:300], wit["impl"][:300]))
@@ -645,12 +747,14 @@ def write_evidence(ctx, gate, spec, nviol):
         trusted_base=[
             "Coq 8.16.1 kernel (coqc); vm_compute where a theorem says so; no native_compute",
             "axioms reported by Print Assumptions this run: %s" % (", ".join(gate["axioms"]) or "none (closed under the global context)"),
-            "extraction with ExtrOcamlBasic only (bool, option, unit, list, prod, sumbool, sumor; andb, orb inlined)",
+            "extraction with ExtrOcamlBasic only (bool, option, unit, list, prod, sumbool, sumor; andb, orb inlined); "
+            "cross-checked every run on a sample of raw/capture cases against vm_compute inside Coq (model_in_coq_crosscheck)",
             "OCaml driver (parsing/printing glue), Rust harness, tools/check.py comparison",
             "rustc/cargo, ocamlopt, python3",
         ],
         theorems=gate["theorems"],
         coqchk_axioms=gate.get("coqchk_axioms", "not run (quick tier)"),
+        theorem_axioms=gate.get("theorem_axioms", {}),
         theorem_status=spec.get("theorem_status", {}),
         generators=spec.get("generators", ""),
         input_distribution=ctx.dist,
@@ -663,6 +767,12 @@ def write_evidence(ctx, gate, spec, nviol):
         disagreements_checked=len(ctx.mismatches),
         source_drift=ctx.drift,
         notes=ctx.notes,
+        model_in_coq_crosscheck=(dict(sampled=ctx.incoq["sampled"], eligible_pool=ctx.incoq["pool"],
+                                      agree=ctx.incoq["agree"], disagree=len(ctx.incoq["disagree"]),
+                                      error=ctx.incoq.get("error"),
+                                      what="raw/capture/tok cases of this run re-evaluated with vm_compute inside Coq "
+                                           "(Check/Render.v) and compared with the extracted model + OCaml driver")
+                                 if ctx.incoq else "no eligible raw/capture/tok case in this run"),
     )
     ev = dict(
         property_id=ctx.prop,
